@@ -332,7 +332,7 @@ func (fi *FileInfo) checkObjects() error {
 			// cycles, so this stays safe on malformed input.
 			x, endPos, err := fi.doRead(objInfo, fi.makeSafeGetInt(), false)
 			if err != nil {
-				if IsMalformed(err) {
+				if IsMalformed(err) || err == io.EOF || err == io.ErrUnexpectedEOF {
 					objInfo.Broken = true
 					continue
 				}
